@@ -44,6 +44,7 @@ type monScenario struct {
 
 func runMonitor(t *testing.T, sc monScenario) *monResult {
 	res := &monResult{}
+	sc.Events = append([]advEvent(nil), sc.Events...)
 	sort.SliceStable(sc.Events, func(i, j int) bool { return sc.Events[i].AtNS < sc.Events[j].AtNS })
 	res.Leaked, res.Panic = bubble(t, func() {
 		w := newSimWorld(nil)
